@@ -332,8 +332,9 @@ fn check_text(origin: &str, text: &str, max_diag_lines: usize, out: &mut Partial
     }
     let agree = match (&p, &s) {
         (Ok(a), Ok(b)) => same_seq(a, b),
-        (Err(_), Err(_)) => {
+        (Err(e), Err(_)) => {
             out.add("files_rejected_by_both", 1);
+            if std::env::var("C46_DEBUG").is_ok() { eprintln!("REJ {}", e); }
             true
         }
         _ => false,
